@@ -81,7 +81,7 @@ func c08Templates(batch, nbatch int) []*gram.Grammar {
 	}
 	prefixes := []string{"none", "opt", "star", "poslook", "neglook", "consume", "bracketopt", "optgroup2", "nullable-production", "nullable-chain", "nullable-then-dependent", "nonempty-group-of-nullable-production"}
 	wrappers := []string{"bare", "paren", "optgroup", "stargroup", "look", "neg", "plusgroup", "captured-group-before"}
-	routes := []string{"direct", "viaB", "viaUnion", "viaBnullableprefix", "viaUnionOnly", "unionCycleBelowRoot", "unionRootDirect", "unionRootViaRoot"}
+	routes := []string{"direct", "viaB", "viaUnion", "viaBnullableprefix", "viaUnionOnly", "unionCycleBelowRoot", "unionRootDirect", "unionRootViaRoot", "unusedUnion"}
 	altpos := []string{"first", "second-after-single", "second-after-multi", "third"}
 	n := 0
 	for pi, pf := range prefixes {
@@ -204,6 +204,28 @@ func c08Templates(batch, nbatch int) []*gram.Grammar {
 							&gram.Prod{Name: C, Fields: []gram.Field{{Name: "F0", Kind: "string"}}, Expr: seq(lit("c"), &gram.Expr{Op: "cap", Field: 0, Kids: []*gram.Expr{{Op: "ref", Typ: "Ident"}}})},
 							&gram.Prod{Name: B, Fields: bFields, Expr: bexpr})
 						g.Unions = append(g.Unions, &gram.Union{Name: U, Members: []gram.Member{{Prod: C}, {Prod: B, Ptr: true}}})
+					case "unusedUnion":
+						// root A = "s" @Ident never refers to the declared union U = union(C, &B); B re-enters itself
+						// behind <prefix>. Build compiles B all the same and ParserForProduction hands out a parser for it.
+						aFields = []gram.Field{{Name: "F0", Kind: "string"}}
+						recAlt = nil
+						var bFields []gram.Field
+						brec := seq(mkRefT(&bFields, B)...)
+						var bexpr *gram.Expr
+						switch ap {
+						case "first":
+							bexpr = &gram.Expr{Op: "alt", Kids: []*gram.Expr{brec, seq(lit("t"), lit("u"), lit("v"))}}
+						case "second-after-single":
+							bexpr = &gram.Expr{Op: "alt", Kids: []*gram.Expr{lit("t"), brec}}
+						case "second-after-multi":
+							bexpr = &gram.Expr{Op: "alt", Kids: []*gram.Expr{seq(lit("t"), lit("u"), lit("v")), brec}}
+						default:
+							bexpr = &gram.Expr{Op: "alt", Kids: []*gram.Expr{seq(lit("t"), lit("u")), seq(lit("m"), lit("n"), lit("o")), brec}}
+						}
+						g.Prods = append(g.Prods,
+							&gram.Prod{Name: C, Fields: []gram.Field{{Name: "F0", Kind: "string"}}, Expr: seq(lit("c"), &gram.Expr{Op: "cap", Field: 0, Kids: []*gram.Expr{{Op: "ref", Typ: "Ident"}}})},
+							&gram.Prod{Name: B, Fields: bFields, Expr: bexpr})
+						g.Unions = append(g.Unions, &gram.Union{Name: U, Members: []gram.Member{{Prod: C}, {Prod: B, Ptr: true}}})
 					case "unionRootDirect", "unionRootViaRoot":
 						// the grammar root is the union U = union(C, &B) itself; its first member C reaches nothing else,
 						// the later member B re-enters itself (or the root union) behind <prefix>
@@ -254,6 +276,8 @@ func c08Templates(batch, nbatch int) []*gram.Grammar {
 					var aexpr *gram.Expr
 					if rt == "unionCycleBelowRoot" {
 						aexpr = seq(lit("s"), &gram.Expr{Op: "sub", Field: 0})
+					} else if rt == "unusedUnion" {
+						aexpr = seq(lit("s"), &gram.Expr{Op: "cap", Field: 0, Kids: []*gram.Expr{{Op: "ref", Typ: "Ident"}}})
 					} else {
 						switch ap {
 						case "first":
